@@ -87,6 +87,9 @@ def gen_spec(rng, kind=None, maxn=4, via=None):
     }
     if kind == 'bdy':
         spec['via'] = 'from_arrays'
+    if spec['via'] == 'griddesc' and rng.random() < 0.5:
+        # with the CF coordinate variables the constructor adds by default
+        spec['withcf'] = True
     return spec
 
 
@@ -127,7 +130,7 @@ def build(spec):
             NCOLS=spec['nx'], NROWS=spec['ny'], NTHIK=1, FTYPE=1,
             VGLVLS=tuple(spec['vglvls']), SDATE=spec['sdate'],
             STIME=spec['stime'], TSTEP=spec['tstep'], nsteps=spec['nt'],
-            withcf=False,
+            withcf=bool(spec.get('withcf')),
             var_kwds={k: {'units': 'ppmV'} for k in spec['names']})
         for k, a in arrs.items():
             f.variables[k][...] = a
